@@ -17,6 +17,13 @@ RULE = ("histories of connection attempts on the simulated network (virtual time
         "(whichever of the two goes wrong first decides the class the model is told), plus benign variants {upper-case hex, hex with blanks, unused entries missing / added} under which the session must come up as usual; "
         "one fixed history per variant and random ones; "
         "COMPOSITE EVENTS (see C10 stream D: every ordered pair of actions in one loop iteration in every phase, spaced pairs, triples; model tie up to the first composite event, census oracle after it), each followed by a close. "
+        "CLOSE SWEEPS - for every way a connection comes to be set up {first connection by a caller / a public request / a zeroconf sighting, the library's own reconnect after the accessory closed / reset the session, its own retry after "
+        "a back-off (after a refused connect, a spoilt pair-verify, a session dropped at its re-subscription), the second address after a wrong pairing id / a TCP time-out, a sleeping connector woken by zeroconf, a pairing re-opened after "
+        "a close, an accessory slow to answer the re-subscription} x subscriptions to restore in the new session {one characteristic, four characteristics on three accessories of a bridge (three requests), none}: the number N of loop "
+        "iterations the set-up takes (TCP connect, pair-verify, re-subscription, until the loop is at rest) is MEASURED on a dry run, and close() / shutdown() / cancellation of the caller / a drop by the accessory / a zeroconf update / "
+        "close()+new request is issued after k bare loop iterations for EVERY k = 0..N+2 - in every iteration of the window, in particular each one between the accessory's last pair-verify reply and the end of the re-subscription - "
+        "followed by quiet periods of 12 s, 100 s, 300 s: once close() has returned and nothing has asked for the connection since, the accessory must not see a connection open or being opened, whatever tasks the library left behind "
+        "(close sweeps with the default subscription in full, the others sampled in the quick tier). "
         "After every event the accessory-side set of open transports is compared with the pairing's current transport. non-trivial = distinct (addresses, history, record)")
 TRUSTED = ["harness/simnet.py in-memory transport: close() -> connection_lost exactly once via call_soon; the accessory's view of 'open' is the set of transports not yet lost",
            "harness/acc.py scaffold accessory (pair-verify via `cryptography`)"]
@@ -24,7 +31,10 @@ ASSUMPTIONS = ["one model event = one harness action followed by running the loo
                "under a pairing-record variant the class of a pair-verify result that the model is told is computed by the harness from the order of the controller's steps in HAP 5.7.2/5.7.4 (compare the accessory's id, load its LTPK and check the signature, "
                "build iOSDeviceInfo, load the own LTSK and sign, send M3): whichever of the scripted accessory behaviour and the record goes wrong first decides; a connection that used the accessory's unscripted default ends the model tie for that history",
                "composite events (several actions in one loop iteration) are outside the model: the history is tied to the model up to its first composite event, the census oracle applies throughout",
-               "one characteristic is subscribed from the start, so every new session re-subscribes inside connection_made (the `ol` verdict drops the connection at that request); the subscription bookkeeping itself is C12"]
+               "one characteristic is subscribed from the start, so every new session re-subscribes inside connection_made (the `ol` verdict drops the connection at that request); the subscription bookkeeping itself is C12; "
+               "the close sweeps also run with four characteristics on three accessories (one request per accessory) and with none",
+               "(close sweeps) a request for the connection made before close() was called is covered by the close; a zeroconf update handed over in the same event as the close counts as concurrent with it (see C10): after such an event "
+               "nothing is demanded until the history shows which of the two won"]
 EXPLANATION = ("Lean theorems C11_* over HapVerif.Reconnect: the invariant open = current (at most one, none leaked) for every reachable state, failed setup leaves nothing open, close/shutdown total and leave nothing open - then or later, until something asks for a connection again (never, after shutdown) - , "
                "stale loss is the identity; differential tie on the open-connection census after every event + implementation-level census oracle and stale-loss probe")
 
@@ -59,6 +69,7 @@ def cases_for(ctx):
         cases.append((h, e + [end, f"a:{12 * rcsim.U}"] + (["s", f"a:{rcsim.U}"] if end == "X" else []), "random"))
     cases += record_cases(ctx, ctx.budget(150, 4000), ctx.budget(60, 2000))
     cases += closing_composites(ctx, ctx.budget(60, 3000), ctx.budget(60, 3000), ctx.budget(50, 3000))
+    cases += rcsim.gen_close_sweeps(rng, sample=ctx.budget(700, None))
     return cases
 
 
@@ -337,4 +348,5 @@ def search(ctx: Ctx, driver: Driver, broken):
         cases.append((h, e + [end, f"a:{12 * rcsim.U}"] + (["s", f"a:{rcsim.U}"] if end == "X" else []), "search"))
     cases += record_cases(ctx, ctx.budget(1500, 6000), ctx.budget(300, 2000))
     cases += closing_composites(ctx, ctx.budget(1000, 6000), ctx.budget(1000, 6000), ctx.budget(600, 6000))
+    cases += rcsim.gen_close_sweeps(rng, sample=None)
     run_cases(ctx, driver, ID, SIGS, cases)
